@@ -533,7 +533,7 @@ func (s *Session) writeCompressed(rw io.ReadWriter, p *Proposal) (err error) {
 
 	// Flush connection buffers.
 	// This enables us to block until the whole message has been transmitted over the air.
-	if f, ok := rw.(transport.Flusher); ok {
+	if f, ok := rw.(transport.Flusher); ok && err == nil {
 		err = f.Flush()
 	}
 
